@@ -2971,9 +2971,15 @@ ythread_create(ABTI_global *p_global, ABTI_local *p_local, ABTI_pool *p_pool,
                                      : NULL,
                                  p_pool);
         if (pool_op == THREAD_POOL_OP_PUSH) {
+            /* Once pushed, the new ULT can be scheduled by another execution
+             * stream at any moment: a stacked scheduler can run, finish and be
+             * freed together with p_sched, which is where pp_newthread points
+             * to in that case.  Set the return value before the push. */
+            *pp_newthread = p_newthread;
             /* Add this thread to the pool */
             ABTI_pool_push(p_pool, p_newthread->thread.unit,
                            ABT_POOL_CONTEXT_OP_THREAD_CREATE);
+            return ABT_SUCCESS;
         }
     } else {
         /* pool_op == THREAD_POOL_OP_NONE */
